@@ -64,7 +64,7 @@ func (b *Buffer[K, V]) spec_Free() {
 }
 
 func (b *Buffer[K, V]) spec_Free_loop1(i int, pb *PolicyBuffers[K, V]) {
-	invariant("shape", i >= 0 && pb == sp_pb(b) && len(pb.Returned) == old(len(sp_pb(b).Returned)) && b.returned == nil && b.policyBuffers == old(b.policyBuffers) &&
+	invariant("shape", i >= 0 && pb == sp_pb(b) && len(pb.Returned) == old(len(sp_pb(b).Returned)) && b.policyBuffers == old(b.policyBuffers) &&
 		b.head.Load() == old(b.head.Load()) && b.tail.Load() == old(b.tail.Load()))
 	decreases(len(pb.Returned) - i)
 }
